@@ -95,6 +95,15 @@ CHECKS = {
          "cursor are validated by TLC against Trace_Cursor.tla (every event = the specification's action with the same "
          "observations); 64-bit overflow arms are compared with std directly.",
          "6 C19"),
+ "C04": ("model checking (injectivity of the hash recipes) + conformance replay (cross-deserialization)",
+         "MC_Hash: over a universe that contains every core definition with its near-miss mutants (spec/Derive.tla: field "
+         "renamed, fields swapped, same-size field type, copy kind toggled, const name, repr attribute, array length / sequence "
+         "kind, variant renamed / reordered; const values and generic arguments by instantiation) under the constructors whose "
+         "hashes recurse, TLC checks that equal (type-hash, align-hash) preimages imply the same serialized structure and that "
+         "slice / iterator / vector share both. Binding: real preimages (recording Hasher) = specification's for every "
+         "compiled type; real header words grouped; real cross-deserialization of T's bytes as U (both modes) for every pair "
+         "of each mutant family, every pair flagged at design level, every equal-word pair and a seeded sample of the rest.",
+         "6 C04"),
 }
 
 
